@@ -186,7 +186,7 @@ type C14Scenario struct {
 // beyond the reported remaining time, so that the only thing that can end
 // the search is the driver's own deadline.
 func buildC14Scenario(cases []c14Case, real bool) *C14Scenario {
-	sc := &UCIScenario{World: "uci", Stub: !real}
+	sc := &UCIScenario{World: "uci", Stub: !real, AutoGrant: true}
 	add := func(op UStep) { sc.Steps = append(sc.Steps, op) }
 	add(UStep{Op: "in", Data: "uci\nsetoption name Ponder value true\nisready\n"})
 	add(UStep{Op: "drain"})
